@@ -15,7 +15,9 @@ RULE = ("request side: K/M/R x pair counts 1..4 x all TimeUnit / RandomBasis / E
         "arguments and converted with request_to_qlink_1_0 (K, M). Result side: both roles, K/M/R, 1..4 pairs, responses "
         "whose every free field carries a unique tag 1000*pair + 10*field + 7 and whose Bell state / basis vary per "
         "pair; every host handle (qubit.entanglement_info.*, remote_entangled_node, EprKeepResult.*, EprMeasureResult.*) "
-        "must read the tagged field of ITS pair. Non-trivial = number >= 2 or any non-default argument; distinct = "
+        "must read the tagged field of ITS pair."
+        " Request sessions: up to two connections of one host open at once on a long-lived controller, each building create_measure calls (parameters from a small pool, two remotes) before either flushes; closed connections are followed by successors with the same application id, EPR socket objects are reused, the network numbering changes between runs; every request reaching the stack during a flush is compared with that connection's next call. "
+        "Non-trivial = number >= 2 or any non-default argument; distinct = "
         "distinct case description.")
 ASSUMPTIONS = ["responses are well-formed link-layer tuples; purpose id = EPR socket id (the recording stack's mapping)",
                "with max_time == 0 there is no time limit, so the time unit that reaches the stack is not judged",
